@@ -392,10 +392,17 @@ def withJit {α : Type} (ss : Slots) (i : Nat)
   | _ => ("bad-slot", ss)
 
 def parseReadings (s : String) : Option (List U64) :=
+  -- comma-separated hex words; a token `HEX*N` (N decimal) is the reading repeated N times
   if s == "-" then some [] else
-  (s.splitOn ",").foldr (fun tok acc => match parseHex tok, acc with
-    | some n, some l => some (BitVec.ofNat 64 n :: l)
-    | _, _ => none) (some [])
+  (s.splitOn ",").foldr (fun tok acc => match acc with
+    | none => none
+    | some l =>
+      match tok.splitOn "*" with
+      | [h] => (parseHex h).map (fun n => BitVec.ofNat 64 n :: l)
+      | [h, k] => match parseHex h, k.toNat? with
+        | some n, some k => if k > 2 ^ 28 then none else some (List.replicate k (BitVec.ofNat 64 n) ++ l)
+        | _, _ => none
+      | _ => none) (some [])
 
 def timerErrName : Jitter.TimerError → String
   | .NoTimer => "NoTimer" | .CoarseTimer => "CoarseTimer" | .NotMonotonic => "NotMonotonic"
